@@ -2,12 +2,19 @@
 Files are an association list (path -> content), so symbolic file names stay symbolic."""
 
 
+class _FD(object):
+    def __init__(self, path, flags):
+        self.path = path
+        self.flags = flags
+
+
 class _File(object):
-    def __init__(self, fs, path, mode):
+    def __init__(self, fs, path, mode, no_trunc=False):
         self.fs = fs
         self.path = path
         self.mode = mode
         self.buf = None
+        self.no_trunc = no_trunc
 
     def __enter__(self):
         return self
@@ -26,6 +33,15 @@ class _File(object):
         return self.fs.get(self.path)
 
     def write(self, data):
+        if self.no_trunc:
+            # written over the head of what is there: longer old content keeps its tail
+            i = self.fs.find(self.path)
+            if i >= 0 and self.fs.sizes[i] is not None:
+                from pbsym.models.b64 import Mixed, model_len
+                old, old_size = self.fs.files[i][1], self.fs.sizes[i]
+                if old_size > model_len(data):
+                    self.fs.put(self.path, Mixed(data, old), size=old_size)
+                    return 0
         self.fs.put(self.path, data)
         return len(data) if hasattr(data, '__len__') else 0
 
@@ -94,8 +110,26 @@ class FS(object):
             raise OSError('no such file')
         return type('St', (), {'st_mtime': self.mtimes[i], 'st_mtime_ns': self.mtimes[i], 'st_size': self.sizes[i]})()
 
-    # --- io / builtin open
-    def open(self, path, mode='r', encoding=None):
+    O_RDONLY, O_WRONLY, O_RDWR, O_CREAT, O_TRUNC, O_EXCL, O_APPEND = 0, 1, 2, 64, 512, 128, 1024
+
+    def fdopen(self, fd, mode='r', *a, **k):
+        return _File(self, fd.path, mode, no_trunc=True)
+
+    def close(self, fd):
+        pass
+
+    # --- io / builtin open / os.open
+    def open(self, path, mode='r', encoding=None, *a):
+        if isinstance(mode, int):           # os.open(path, flags[, mode])
+            flags = mode
+            self.opens.append((path, 'os.open'))
+            if self.find(path) < 0:
+                if not flags & self.O_CREAT:
+                    raise OSError('no such file')
+                self.put(path, b'', size=0)
+            elif flags & self.O_TRUNC:
+                self.put(path, b'', size=0)
+            return _FD(path, flags)
         self.opens.append((path, mode))
         if 'r' in mode and self.find(path) < 0:
             raise IOError('no such file: %r' % (path,))
